@@ -751,7 +751,18 @@ def c16e(prog, rep):
     if rep.check(fe is not None, R, "anchor:for_each-closure", "for_each closure of exec_format not found"):
         hs = _handler_calls_under_err(prog, fe)
         hs = [c for c in hs if not any(x[0] == "upvar" and x[2] == "result_operation" for x in Origins(fe).of_operand(c.args[0]))]
-        rep.check(len(hs) == 1, R, "for_each:err->handler", "the per-file result is not handed to error_handler on Err")
+        ok_h = len(hs) == 1
+        if not ok_h:
+            # `results.filter_map(Result::err).for_each(&error_handler)`: exactly the errors, each handed to the handler parameter itself
+            efb = prog.body(FF + "exec_format")
+            for c in (efb.calls() if efb is not None else []):
+                if (c.callee or "").startswith("rayon::") and (c.callee or "").split("::")[-1] == "for_each" and len(c.args) == 2:
+                    src, h = canon(efb, c.args[0]), canon(efb, c.args[1])
+                    fm = [k for k in efb.calls() if (k.callee or "").startswith("rayon::") and (k.callee or "").split("::")[-1] == "filter_map" and canon(efb, c.args[0]).startswith("filter_map(")]
+                    is_err = any(k.args[1]["k"] == "const" and norm(k.args[1].get("fn") or "") == "core::result::Result::err" for k in fm)
+                    if re.match(r"^&?arg\d+$", h) and src.startswith("filter_map(") and is_err and len(fm) == 1:
+                        ok_h = True
+        rep.check(ok_h, R, "for_each:err->handler", "the per-file result is not handed to error_handler on Err")
     # exit code: handler stores true, main selects FAILURE on it; no process::exit after argument parsing
     main = prog.body("bin:pasfmt::main")
     if rep.check(main is not None, R, "anchor:main", "bin main not found"):
@@ -1192,12 +1203,23 @@ def c18k(prog, rep):
     batch_calls = [c for c in run.calls() if any(t in par for t in prog.callees_of_site(c))]
     if not rep.check(bool(batch_calls), R, "anchor:batch-calls", "FormattingOrchestrator::run no longer calls a function that reaches a parallel iteration"):
         return
-    setups = []
-    for c in run.calls():
-        if (c.callee or "").endswith("ThreadPoolBuilder::build_global"):
-            m = re.search(r"stack_size\(.*?,(\d+)\)", canon(run, c.args[0]))
-            if m and int(m.group(1)) >= MAIN_THREAD_STACK:
-                setups.append(c)
+    def sets_up_pool(b2, depth=0):
+        """call sites of b2 behind which the global pool is configured with a big enough stack: the build_global call itself, or a call of a
+        workspace function that performs one on every path to its return"""
+        out = []
+        for c in b2.calls():
+            if (c.callee or "").endswith("ThreadPoolBuilder::build_global"):
+                m = re.search(r"stack_size\(.*?,(\d+)\)", canon(b2, c.args[0]))
+                if m and int(m.group(1)) >= MAIN_THREAD_STACK:
+                    out.append(c)
+            elif depth < 2:
+                cb = prog.body(c.resolved or c.callee or "")
+                if cb is not None and cb.crate.startswith("pasfmt") and cb.npath != b2.npath:
+                    inner = sets_up_pool(cb, depth + 1)
+                    if inner and not cb.can_reach_avoiding(0, set(cb.return_blocks()), {x.bb for x in inner}):
+                        out.append(c)
+        return out
+    setups = sets_up_pool(run)
     bad = [c for c in batch_calls if not any(run.dominates(s_.bb, c.bb) for s_ in setups)]
     rep.check(not bad, R, "pool-stack-set-before-the-batch",
               "the parallel batch is entered (%s) without the global pool having been set up with a stack of at least %d bytes: worker threads get the 2 MiB default, so a nested file that "
@@ -1501,9 +1523,11 @@ def c18d(prog, rep):
     ef = prog.body(FF + "exec_format")
     if ef is not None:
         pc = [c.callee for c in ef.calls() if (c.callee or "").startswith("rayon::")]
-        shapes = [sorted(["rayon::iter::IntoParallelIterator::into_par_iter", "rayon::iter::ParallelIterator::map_init", "rayon::iter::ParallelIterator::for_each"]),
-                  sorted(["rayon::iter::IntoParallelIterator::into_par_iter", "rayon::iter::ParallelIterator::for_each_init"])]
-        rep.check(sorted(pc) in shapes, R,
+        # every file is visited and every result reaches the end of the pipeline: an entry into the pool, element-wise adapters and a consuming
+        # for_each; nothing that can stop early or pick elements (try_*, find_*, any / all, take / skip, while_some, panic_fuse ..)
+        names = [x.split("::")[-1] for x in pc]
+        elementwise = {"into_par_iter", "par_iter", "map", "map_init", "map_with", "for_each", "for_each_init", "for_each_with", "inspect", "filter_map", "flat_map", "enumerate"}
+        rep.check("into_par_iter" in names and any(n.startswith("for_each") for n in names) and all(n in elementwise for n in names), R,
                   "parallel-shape", "exec_format's parallel pipeline changed (no early exit / try_* / find_* adaptors allowed): %s" % sorted(pc), instance={"rayon_calls": sorted(pc)})
         mi = ef.calls_to("rayon::iter::ParallelIterator::map_init") + ef.calls_to("rayon::iter::ParallelIterator::for_each_init")
         if mi:
